@@ -3,6 +3,7 @@
 package packet
 
 import (
+	"net"
 	"time"
 )
 
@@ -19,4 +20,8 @@ func (h *Session) VerifICMP4SendPacket(src Addr, dst Addr, p ICMP) error {
 
 func (h *Session) VerifICMP6SendPacket(src Addr, dst Addr, b []byte) error {
 	return h.icmp6SendPacket(src, dst, b)
+}
+
+func (h *Session) VerifArpRequest(dst net.HardwareAddr, sender Addr, target Addr) error {
+	return h.arpRequest(dst, sender, target)
 }
